@@ -55,6 +55,12 @@ CLAIMED['C04'] = dict(
    note='Trusted: clang AST, sa/codec.py, zlib round trip. The intended-member table in sa/rules/c04.py is a semantic slot table (which wire members make up a logical field). One genuine defect repaired (set_loops dropped trailing data).',
    ref='DESIGN.md 4 C04')
 
+CLAIMED['C18'] = dict(
+   technique='statement-level static analysis: SQL parsed from string literals, binds and sinks resolved to row fields through the clang AST, names resolved against the DDL catalogs of every supported 2.x version, schema-guard intervals, accessor pairing',
+   text='For the five 2.x table classes (131 statement instances, helper statements expanded per call-site literal): B1 placeholders == binds, INSERT widths, SELECT width == sink arity; B2 every row-level statement (add / get / update in each of the three schema ranges) ties each column to the same row field and each field to one column - a transposed or misplaced bind in any one of the 48-column statements is reported with both names; B3 every table and column named exists in the DDL of every version the enclosing schema guards admit; B4 the 96 column accessors pair up (get_X / set_X same column) and the column carries row field X; B5 column accessors and remove() test result presence / rows_modified() and throw; B6 an accessor is refused for exactly the versions whose Track table lacks the column.',
+   note='Trusted: clang AST, SQL reader, catalog model (validated under C17). Not decided: time_point <-> integer/text conversion values, affinity conversions inside SQLite, equality of whole rows after arbitrary sequences. Two genuine defects repaired (remove() of a nonexistent row; entity removal keyed by the wrong column).',
+   ref='DESIGN.md 4 C18')
+
 NOT_APPLICABLE = {
  'C19': 'numerical result of integer/floating arithmetic over all inputs (ceiling division, quantisation, minimality, monotonicity): no structural clause beyond the division guard, which C15-U6 covers; a sound decision needs an arithmetic solver or proof (different family)',
  'C20': 'floating-point numerical behaviour of beat-grid extrapolation (bracketing, tempo preservation, idempotence up to rounding); only the iterator arithmetic is shape-visible and is covered by C15-U3',
